@@ -50,6 +50,7 @@ pub struct World {
     pub own_class: u8,
     pub init_line: String,        // the INIT line of the scenario (what the host configured)
     pub port_lines: Vec<String>,  // the PORT lines, in port order
+    pub prev_parent: String,      // the parent before the current one (text), "" if none
 }
 
 pub const CLOCKS: [[u8; 8]; 6] = [
@@ -367,6 +368,17 @@ impl<'a> Gen<'a> {
             return;
         }
         let parts: Vec<&str> = obs.split(" | ").collect();
+        // C12: the announce / sync timer of a Master port re-arms itself on every expiry (a call that panics re-arms
+        // nothing: the port then waits on a timer that is not armed)
+        if w.len() >= 3 && w[1] == "TMR" && (w[2] == "ann" || w[2] == "sync") {
+            if let Ok(k) = w[0].trim_start_matches('P').parse::<usize>() {
+                let is_master = self.w.ports.get(k.wrapping_sub(1)).map(|p| p.state == "Master").unwrap_or(false);
+                let rearmed = parts[0].split(" ; ").any(|it| it.starts_with(&format!("P{k}:reset {} ", w[2])));
+                if is_master && !rearmed && obs != "dead" && obs != "bad-op" {
+                    self.out.oracle("C12", "master-timer-not-rearmed", &format!("{line} -> the {} timer of Master port {k} expired and was not re-armed ({})", if w[2] == "ann" { "announce" } else { "sync" }, if obs.starts_with("R panic") { "the call panicked" } else { "no reset action" }));
+                }
+            }
+        }
         if parts.len() < 3 {
             return;
         }
@@ -432,6 +444,15 @@ impl<'a> Gen<'a> {
                 }
             }
         }
+        // C13 at the port: a port that leaves the slave state hands its servo its last call (`demobilize`) - once
+        for i in 0..after.len().min(before.len()) {
+            if before[i] == "Slave" && after[i] != "Slave" {
+                let n = parts[0].split(" ; ").filter(|it| *it == format!("P{}:demob", i + 1)).count();
+                if n != 1 {
+                    self.out.oracle("C13", "servo-not-demobilised-once-on-leaving-slave", &format!("{line} -> port {} went Slave -> {} and its filter was demobilised {n} time(s): a live servo keeps steering after the port has left the slave state", i + 1, after[i]));
+                }
+            }
+        }
         for i in 0..after.len().min(before.len()) {
             if before[i] == "Faulty" && after[i] != "Faulty" && !had_peer_meas[i] {
                 self.out.oracle("C14", "faulty-left-without-clean-exchange", &format!("{line} -> port {} went Faulty -> {} without a completed peer delay exchange", i + 1, after[i]));
@@ -487,7 +508,10 @@ impl<'a> Gen<'a> {
                 }
             }
             if let Some(d) = part.strip_prefix("D ") {
-                self.w.parent = d.split_whitespace().nth(1).unwrap_or("").to_string();
+                let np = d.split_whitespace().nth(1).unwrap_or("").to_string();
+                if np != self.w.parent {
+                    self.w.prev_parent = std::mem::replace(&mut self.w.parent, np);
+                }
             }
         }
         let _ = line;
@@ -545,6 +569,18 @@ impl<'a> Gen<'a> {
         }
         // incl. 20 s before 2^63 ns and before 2^64 ns (the i64 / u64 nanosecond boundaries are crossed while the scenario
         // runs) and the last days of the 48-bit seconds field
+        // now and then two of the masters are two ports of one clock announcing the same grandmaster, one of them one
+        // step closer: the port's parent then moves between port identities of one clock identity
+        if masters.len() >= 2 && rng.chance(1, 4) {
+            let m0 = masters[0].clone();
+            let m1 = &mut masters[1];
+            m1.clock = m0.clock;
+            m1.port = if m0.port == 1 { 2 } else { 1 };
+            let steps0 = m0.ann.steps;
+            m1.ann = m0.ann.clone();
+            m1.ann.steps = if rng.chance(1, 2) { steps0.wrapping_add(1) } else { steps0.saturating_sub(1) };
+            m1.two_step = m0.two_step;
+        }
         let start = *rng.pick(&[
             1_700_000_000u128 * SEC,
             1_700_000_000u128 * SEC,
@@ -555,7 +591,7 @@ impl<'a> Gen<'a> {
             ((1u128 << 64) - 20_000_000_000) * F32,
             ((1u128 << 48) - 200_000) * SEC,
         ]);
-        self.w = World { own_clock: own, own_sdo: sdo, own_domain: domain, masters, ports: vec![], parent: String::new(), now: start, path_trace, slave_only, own_p1: p1, own_class: class, init_line: String::new(), port_lines: vec![] };
+        self.w = World { own_clock: own, own_sdo: sdo, own_domain: domain, masters, ports: vec![], parent: String::new(), now: start, path_trace, slave_only, own_p1: p1, own_class: class, init_line: String::new(), port_lines: vec![], prev_parent: String::new() };
         self.w.init_line = line.clone();
         self.emit(line);
         if bmca_first {
@@ -992,6 +1028,59 @@ impl<'a> Gen<'a> {
         }
     }
 
+    /// more senders than the foreign master list has room for (8): Announces from 9 to 12 distinct port identities
+    /// reach one port within one BMCA period
+    pub fn announce_flood(&mut self, rng: &Prng) {
+        let k = 1 + rng.below(self.w.ports.len() as u64) as usize;
+        let n = 9 + rng.below(4) as u16;
+        let base = *rng.pick(&CLOCKS[2..]);
+        for i in 0..n {
+            if self.dead {
+                return;
+            }
+            let clock = if i % 3 == 0 { base } else { *rng.pick(&CLOCKS[2..]) };
+            let port = 10 + i; // distinct port numbers make the identities distinct whatever the clock
+            let mut f = self.base_frame(rng, 0xb, clock, port, rng.below(4) as u16);
+            f.flags[1] = 0x08;
+            f.set_announce(&random_ann(rng, clock));
+            self.out.count("gen.announce-flood");
+            self.emit(format!("P{k} GEN {}", hex(&f.bytes())));
+        }
+        if !self.dead && rng.chance(1, 2) {
+            self.bmca_op(rng);
+        }
+    }
+
+    /// two masters that are two ports of one clock: a burst from the one that is not the current parent, then a BMCA
+    /// run - the parent moves between port identities of one clock identity (or stays, if the other one is worse)
+    pub fn twin_burst(&mut self, rng: &Prng) -> bool {
+        let parent = self.w.parent.clone();
+        let pair = (0..self.w.masters.len()).find_map(|i| {
+            (0..self.w.masters.len()).find(|&j| j != i && self.w.masters[j].clock == self.w.masters[i].clock && self.w.masters[j].port != self.w.masters[i].port).map(|j| (i, j))
+        });
+        let Some((i, j)) = pair else { return false };
+        let is_parent = |m: &Master| format!("{}:{}", clock_hex(&m.clock), m.port) == parent;
+        let mi = if is_parent(&self.w.masters[i]) { j } else { i };
+        let slaves: Vec<usize> = self.w.ports.iter().enumerate().filter(|(_, p)| p.state == "Slave").map(|(x, _)| x + 1).collect();
+        let k = if slaves.is_empty() { 1 + rng.below(self.w.ports.len() as u64) as usize } else { *rng.pick(&slaves) };
+        for _ in 0..2 + rng.below(2) {
+            if self.dead {
+                return true;
+            }
+            self.w.masters[mi].seq = self.w.masters[mi].seq.wrapping_add(1);
+            let m = self.w.masters[mi].clone();
+            let mut f = self.base_frame(rng, 0xb, m.clock, m.port, m.seq);
+            f.flags[1] = m.flags1;
+            f.set_announce(&m.ann);
+            self.out.count("gen.twin-burst");
+            self.emit(format!("P{k} GEN {}", hex(&f.bytes())));
+        }
+        if !self.dead {
+            self.bmca_op(rng);
+        }
+        true
+    }
+
     /// a complete (possibly perturbed) Sync [+ Follow_Up] exchange and a Delay exchange on a slave port
     pub fn exchange(&mut self, rng: &Prng) {
         let slaves: Vec<usize> = self.w.ports.iter().enumerate().filter(|(_, p)| p.state == "Slave").map(|(i, _)| i + 1).collect();
@@ -1304,6 +1393,12 @@ impl<'a> Gen<'a> {
         if !any_slave && r < 12 {
             return self.announce_burst(rng);
         }
+        if r == 99 && rng.chance(1, 3) {
+            return self.announce_flood(rng);
+        }
+        if (94..99).contains(&r) && self.twin_burst(rng) {
+            return;
+        }
         match rng.below(100) {
             0..=27 => self.announce_op(rng),
             28..=39 => self.bmca_op(rng),
@@ -1332,7 +1427,7 @@ pub fn new_gen(out: &mut Out) -> Gen<'_> {
         meas: MeasOracle::default(),
         ex: InstExec::new(),
         out,
-        w: World { own_clock: [0; 8], own_sdo: 0, own_domain: 0, masters: vec![], ports: vec![], parent: String::new(), now: 0, path_trace: false, slave_only: false, own_p1: 0, own_class: 0, init_line: String::new(), port_lines: vec![] },
+        w: World { own_clock: [0; 8], own_sdo: 0, own_domain: 0, masters: vec![], ports: vec![], parent: String::new(), now: 0, path_trace: false, slave_only: false, own_p1: 0, own_class: 0, init_line: String::new(), port_lines: vec![], prev_parent: String::new() },
         ops_in_scenario: 0,
         dead: false,
         on_obs: None,
@@ -2017,7 +2112,7 @@ pub fn generate(out: &mut Out, rng: &Prng, thorough: bool) {
         meas: MeasOracle::default(),
         ex: InstExec::new(),
         out,
-        w: World { own_clock: [0; 8], own_sdo: 0, own_domain: 0, masters: vec![], ports: vec![], parent: String::new(), now: 0, path_trace: false, slave_only: false, own_p1: 0, own_class: 0, init_line: String::new(), port_lines: vec![] },
+        w: World { own_clock: [0; 8], own_sdo: 0, own_domain: 0, masters: vec![], ports: vec![], parent: String::new(), now: 0, path_trace: false, slave_only: false, own_p1: 0, own_class: 0, init_line: String::new(), port_lines: vec![], prev_parent: String::new() },
         ops_in_scenario: 0,
         dead: false,
         on_obs: None,
